@@ -279,7 +279,11 @@ pub fn run(e: &Engine) {
         crate::fuzzrun::campaign(e, "open_verify", 3_000_000, 700);
     }
     unsafe_lint(e);
-    for cls in ["rejected", "opened_and_verified", "opened_verify_error", "past_the_length_and_version_gates"] {
+    for cls in ["opened_verify_error"] {
+        // a stricter open turns these away earlier
+        e.expect_class(cls, 1);
+    }
+    for cls in ["rejected", "opened_and_verified", "past_the_length_and_version_gates"] {
         e.require_class(cls, 1);
     }
 }
